@@ -98,6 +98,68 @@ Theorem refine_success_reloads (shelxl : fs -> Z * fs) (parse : str -> list str)
   m = pre ++ u :: a :: post.
 Proof. apply success_reloads. Qed.
 
+(* ---- crash safety: at every point of the protocol the user's model is on disk, in the .res file or in the backup file ---- *)
+Theorem refine_crash_safe (shelxl : fs -> Z * fs) (during : fs -> list fs) (parse : str -> list str) (render : list str -> str)
+  (is_acta is_unit : str -> bool) (set_cycles : nat -> list str -> list str) (cycles : option nat) (lines : list str) (f : fs) (old : str) :
+  (forall g, snd (shelxl g) FBak = g FBak) -> (forall g h, In h (during g) -> h FBak = g FBak) ->
+  f FRes = Some old ->
+  forall g, In g (refine_trace shelxl during render is_acta set_cycles cycles lines f) -> g FRes = Some old \/ g FBak = Some old.
+Proof.
+  intros K D Old g. unfold refine_trace.
+  set (lines1 := match cycles with Some n => set_cycles n lines | None => lines end).
+  set (ins0 := render (without_acta is_acta lines1)).
+  set (f1 := upd_fs f FIns (Some ins0)).
+  set (f2a := upd_fs f1 FBak (f1 FRes)).
+  set (f2 := upd_fs f2a FSave (f1 FRes)).
+  assert (R1 : f1 FRes = Some old) by (unfold f1, upd_fs; cbn; exact Old).
+  assert (B2a : f2a FBak = Some old) by (unfold f2a, upd_fs; cbn; exact R1).
+  assert (B2 : f2 FBak = Some old) by (unfold f2, upd_fs; cbn; exact B2a).
+  pose proof (K f2) as K2. destruct (shelxl f2) as [code f3] eqn:E. cbn [snd] in K2.
+  intros I. apply in_app_or in I. destruct I as [I | I].
+  - destruct I as [<- | [<- | [<- | [<- | []]]]].
+    + left; exact Old.
+    + left; exact R1.
+    + right; exact B2a.
+    + right; exact B2.
+  - apply in_app_or in I. destruct I as [I | I].
+    + right. rewrite (D f2 g I). exact B2.
+    + apply in_app_or in I. destruct I as [[<- | []] | I].
+      * right. rewrite K2. exact B2.
+      * destruct (result_ok code f3); [destruct I|].
+        destruct I as [<- | [<- | []]].
+        -- left. unfold upd_fs. cbn. rewrite K2. exact B2.
+        -- left. unfold upd_fs. cbn. rewrite K2. exact B2.
+Qed.
+
+(* the trace is a refinement of the protocol: its last state is the file system refine() ends with *)
+Theorem refine_trace_ends (shelxl : fs -> Z * fs) (during : fs -> list fs) (parse : str -> list str) (render : list str -> str)
+  (is_acta is_unit : str -> bool) (set_cycles : nat -> list str -> list str) (cycles : option nat) (lines : list str) (f : fs) :
+  last (refine_trace shelxl during render is_acta set_cycles cycles lines f) f =
+  snd (fst (refine shelxl parse render is_acta is_unit set_cycles cycles lines f)).
+Proof.
+  unfold refine_trace, refine.
+  destruct (shelxl _) as [code f3]. rewrite !app_assoc.
+  destruct (result_ok code f3).
+  - rewrite app_nil_r. rewrite last_last. reflexivity.
+  - change [upd_fs f3 FRes (f3 FBak); upd_fs (upd_fs f3 FRes (f3 FBak)) FBak None]
+      with ([upd_fs f3 FRes (f3 FBak)] ++ [upd_fs (upd_fs f3 FRes (f3 FBak)) FBak None]).
+    rewrite app_assoc. rewrite last_last. reflexivity.
+Qed.
+
+(* non-vacuity: SHELXL deletes the result file while it runs and then dies; at every crash point the old bytes are on disk *)
+Example crash_example :
+  let old := lit "TITL x / UNIT 1 / L.S. 4 / HKLF 4" in
+  let f0 : fs := fun n => match n with FRes => Some old | _ => None end in
+  let shelxl := fun g : fs => ((-9)%Z, upd_fs g FRes None) in
+  let during := fun g : fs => [upd_fs g FRes (Some []); upd_fs g FRes None] in
+  forallb (fun g : fs => match g FRes, g FBak with
+                         | Some s, _ => if list_eq_dec Ascii.ascii_dec s old then true else match g FBak with Some b => if list_eq_dec Ascii.ascii_dec b old then true else false | None => false end
+                         | None, Some b => if list_eq_dec Ascii.ascii_dec b old then true else false
+                         | None, None => false end)
+          (refine_trace shelxl during (fun l => concat l) (fun _ => false) (fun _ l => l) None [lit "UNIT 1"] f0) = true
+  /\ length (refine_trace shelxl during (fun l => concat l) (fun _ => false) (fun _ l => l) None [lit "UNIT 1"] f0) = 9%nat.
+Proof. cbv zeta. split; vm_compute; reflexivity. Qed.
+
 (* a concrete run of the model: SHELXL exits with status 1 after truncating the result file *)
 Example refine_example :
   let shelxl := fun g : fs => (1%Z, upd_fs g FRes (Some [])) in
